@@ -344,7 +344,10 @@ def show_item(know, it):
 def show_atom_w(know, a):
     if a[0] == 'cell':
         return show_term(simp(know, a[2]))
-    return 'copy of %d bytes' % 0 if False else 'a copied region'
+    if a[0] == 'copy':
+        (sbase, slo, shi) = a[3]
+        return 'copy of %s[%s..%s]' % (sbase[0][1] if sbase[0][0] == 'heap' else 'local', show_term(simp(know, slo)), show_term(simp(know, shi)))
+    return 'a filled region'
 
 
 def ok_length(prog, lf):
